@@ -201,6 +201,8 @@ LEVEL_TEXT['C02'] += ' Added (unit andorparse): Parser::and_or_list pairs every 
 TECH['C02'] += ' + Parser::and_or_list + Parser::maybe_compound_list'
 LEVEL_TEXT['C05'] += ' Added (unit globpush): SearchEnv::push_component delivers a path at the last component exactly when its existence is known or found, descends below `path/` for exactly the rest of the field otherwise, and restores the path being built.'
 TECH['C05'] += ' + SearchEnv::push_component'
+LEVEL_TEXT['C12'] += ' Added (units fgresume, bgresume): fg removes a job from the table exactly when it has finished; bg sends SIGCONT to the process group of a live job only, sets `$!` to its process ID and makes it the current job, and never removes it.'
+TECH['C12'] += ' + fg / bg resume_job_by_index against ghost logs of the system and job-table calls'
 
 def main():
     checks = []
